@@ -848,3 +848,39 @@ func (s *Sim) ParkedCount() int {
 	defer s.mu.Unlock()
 	return len(s.parkedL)
 }
+
+// SigMix folds a token into the run's schedule signature (sequential
+// scenarios, which take no scheduler steps, describe their history with it).
+func (s *Sim) SigMix(tok string) {
+	s.mu.Lock()
+	s.sig = (s.sig ^ hashStr(tok)) * 1099511628211
+	s.mu.Unlock()
+}
+
+// CountStep lets sequential scenarios account one operation as one step.
+func (s *Sim) CountStep() { s.step++ }
+
+// ReleaseFirst releases the first parked task in canonical order without
+// consulting the chooser (enumeration-style scenarios); it reports whether
+// there was one.
+func (s *Sim) ReleaseFirst() bool {
+	s.mu.Lock()
+	pk := append([]*parked(nil), s.parkedL...)
+	s.mu.Unlock()
+	if len(pk) == 0 {
+		return false
+	}
+	sort.Slice(pk, func(i, j int) bool {
+		if pk[i].task.name != pk[j].task.name {
+			return pk[i].task.name < pk[j].task.name
+		}
+		return pk[i].seq < pk[j].seq
+	})
+	p := pk[0]
+	s.step++
+	s.Event("release %s @%s %s", p.task.name, p.class, p.label)
+	s.unpark(p)
+	s.sleepDriver(time.Microsecond)
+	close(p.ch)
+	return true
+}
